@@ -37,6 +37,19 @@ def floatToI64 (x : Int) : Int := sat x
 /-- `Float -> Integer`: accepted iff `(x as i64) as f64 == x` -/
 def floatToInt? (x : Int) : Option Int := if ofInt (floatToI64 x) = x then some (floatToI64 x) else none
 
+/-- a `NaiveDateTime`: day number, second of the day, nanosecond of the second -/
+structure Stamp where
+  day : Int
+  sec : Nat
+  nano : Nat
+  deriving DecidableEq, Repr, Inhabited
+
+/-- `Date -> DateTime`: midnight of that day -/
+def dateToStamp (d : Int) : Stamp := ⟨d, 0, 0⟩
+/-- `DateTime -> Date`: accepted iff the timestamp *is* the midnight of its day (`*arg == date.and_hms_opt(0, 0, 0)`), so that a
+timestamp with a time of day — however small — is refused instead of truncated -/
+def stampToDate? (s : Stamp) : Option Int := if s.sec = 0 ∧ s.nano = 0 then some s.day else none
+
 /-- `intervals_image`: endpoints mapped and re-ordered -/
 def imageIvs (cap : Nat) (f : Int → Int) (l : Ivs) : Ivs :=
   fromIntervals cap (l.map fun ab => if f ab.1 < f ab.2 then (f ab.1, f ab.2) else (f ab.2, f ab.1))
